@@ -241,6 +241,21 @@ Notation parsersT := (parsers A G D C E).
 Notation cur := (s_cur A G D E).
 Notation nextT := (next A G D C E OPS).
 
+(* Parser.depth bookkeeping around a production *)
+Lemma nested_ok : forall (X : Type) site (f : pstateT -> resT X) s x s',
+  nested A G D E site f s = Ok x s' ->
+  exists s2,
+    f (upd_depth A G D E s (S (s_depth A G D E s))) = Ok x s2 /\
+    s' = upd_depth A G D E s2 (pred (s_depth A G D E s2)).
+Proof.
+  intros X site f s x s' H. unfold nested in H. cbv zeta in H.
+  destruct (S MAX_NESTING <=? s_depth A G D E (upd_depth A G D E s (S (s_depth A G D E s))));
+    [discriminate H |].
+  destruct (f (upd_depth A G D E s (S (s_depth A G D E s)))) as [y s2 | e s2 | k |];
+    try discriminate H.
+  injection H as Hx Hs. subst y s'. exists s2. split; reflexivity.
+Qed.
+
 Section Step.
 Variable U : pstateT -> nodeT -> pstateT -> Prop.
 Notation TraceU := (Trace OPS U).
@@ -336,7 +351,7 @@ Theorem unary_body_operator : forall s n s' pos op,
     nextT s = Ok tt s1 /\ k_unary A G D C E self s1 = Ok x s' /\
     match classify_unary op with
     | UCPlain => n = n_operation A C pos op x None
-    | UCAnd => n = n_operation A C pos op (unparen A C x) None
+    | UCAnd => n = n_operation A C pos op x None
     | UCArrow =>
         if is_tag GTypeChannel x then reset_chan_arrow A C E pos x = inl n
         else n = n_operation A C pos op x None
@@ -448,19 +463,24 @@ Theorem unary_binds_tighter : forall d p s n s' pos op,
   cur s = Some (pos, TOperator op) -> classify_unary op = UCPlain ->
   exists (t : bexpT) x s1 s2 rest,
     n = to_node t /\ PrecWF t /\
-    nextT s = Ok tt s1 /\ UR s1 x s2 /\
+    nextT (upd_depth A G D E s (S (s_depth A G D E s))) = Ok tt s1 /\ UR s1 x s2 /\
     flat t = IOperand (n_operation A C pos op x None) :: rest /\
-    Trace OPS UR s2 rest s'.
+    Trace OPS UR (upd_depth A G D E s2 (pred (s_depth A G D E s2))) rest s'.
 Proof.
   intros d p s n s' pos op Hrun Hc Hcl.
   destruct (k_binary_sound d p s n s' Hrun) as (t & H1 & H2 & H3 & H4 & H5).
   destruct (flat_head A C t) as (x0 & rest & Hf). rewrite Hf in H5.
   inversion H5 as [| sa xa sb la sc Hu Ht |]; subst.
-  destruct Hu as (du & Hu). destruct du as [| du]; simpl in Hu; [discriminate Hu |].
+  destruct Hu as (du & Hu). destruct du as [| du]; [discriminate Hu |].
+  change (k_unary A G D C E (PA (S du)) s)
+    with (nested A G D E 141 (unary_body A G D C E OPS (PA du)) s) in Hu.
+  destruct (nested_ok _ _ _ _ _ _ Hu) as (s2 & Hb & Hsb). subst sb.
   assert (Hne : classify_unary op <> UCNone) by (rewrite Hcl; discriminate).
-  destruct (unary_body_operator (PA du) s x0 sb pos op Hc Hne Hu) as (s1 & x & Hn & Hk & Hm).
+  assert (Hc' : cur (upd_depth A G D E s (S (s_depth A G D E s))) = Some (pos, TOperator op))
+    by exact Hc.
+  destruct (unary_body_operator (PA du) _ x0 s2 pos op Hc' Hne Hb) as (s1 & x & Hn & Hk & Hm).
   rewrite Hcl in Hm. subst x0.
-  exists t, x, s1, sb, rest. repeat split; try assumption. exists du; exact Hk.
+  exists t, x, s1, s2, rest. repeat split; try assumption. exists du; exact Hk.
 Qed.
 
 (* inside parentheses the same spec grouping applies, from level 0 *)
@@ -511,6 +531,7 @@ Notation selemT := (selem A G).
 Notation parsersT := (parsers A G D C E).
 Notation cur := (s_cur A G D E).
 Notation rest := (s_rest A G D E).
+Notation depth := (s_depth A G D E).
 Notation nextT := (next A G D C E OPS).
 Notation PA := (parsers_at A G D C E OPS).
 
@@ -523,13 +544,13 @@ Definition at_stream (s : pstateT) (l : list selemT) : Prop :=
 
 Lemma next_at_stream : forall s l,
   rest s = l -> (exists a g, s_term A G D E s = TEof a g) ->
-  exists s1, nextT s = Ok tt s1 /\ at_stream s1 l.
+  exists s1, nextT s = Ok tt s1 /\ at_stream s1 l /\ depth s1 = depth s.
 Proof.
   intros s l Hr (a & g & Ht). unfold next. rewrite Hr.
   destruct l as [| [b0 b1 t h] l'].
-  - rewrite Ht. eexists; split; [reflexivity |].
+  - rewrite Ht. eexists; split; [reflexivity |]. split; [| reflexivity].
     unfold at_stream; simpl. repeat split. exists a, g; reflexivity.
-  - eexists; split; [reflexivity |].
+  - eexists; split; [reflexivity |]. split; [| reflexivity].
     unfold at_stream; simpl. repeat split. exists a, g; exact Ht.
 Qed.
 
@@ -541,12 +562,13 @@ Proof. intros l1 l2; unfold items_of; apply flat_map_app. Qed.
    complete unary-expression, at any depth *)
 Lemma unary_ident : forall (self : parsersT) s a0 a1 name g r,
   op_ident_tail r -> at_stream s (SE a0 a1 (TLiteral LIdent name) g :: r) ->
-  exists s1, unary_body A G D C E OPS self s = Ok (n_ident A C a0 name) s1 /\ at_stream s1 r.
+  exists s1, unary_body A G D C E OPS self s = Ok (n_ident A C a0 name) s1 /\ at_stream s1 r /\
+             depth s1 = depth s.
 Proof.
   intros self s a0 a1 name g r Htail (Hc & Hr & Ht). simpl in Hc, Hr.
   assert (Ht0 : exists a g, s_term A G D E (upd_cur A G D E s None) = TEof a g) by exact Ht.
-  destruct (next_at_stream (upd_cur A G D E s None) r Hr Ht0) as (s1 & Hn & Hat).
-  exists s1; split; [| exact Hat].
+  destruct (next_at_stream (upd_cur A G D E s None) r Hr Ht0) as (s1 & Hn & Hat & Hdep).
+  exists s1; split; [| split; [exact Hat | exact Hdep]].
   unfold unary_body. rewrite Hc.
   unfold primary_expression, operand. rewrite Hc.
   unfold identifier. rewrite Hc, Hn. unfold bind.
@@ -559,39 +581,61 @@ Proof.
   rewrite Hstep. reflexivity.
 Qed.
 
+(* ... through the depth guard of the closed parser: it cannot fire below MAX_NESTING *)
+Lemma k_unary_ident : forall d s a0 a1 name g r,
+  op_ident_tail r -> at_stream s (SE a0 a1 (TLiteral LIdent name) g :: r) ->
+  depth s < MAX_NESTING ->
+  exists s1, k_unary A G D C E (PA (S d)) s = Ok (n_ident A C a0 name) s1 /\ at_stream s1 r /\
+             depth s1 = depth s.
+Proof.
+  intros d s a0 a1 name g r Htail Hat Hdep.
+  change (k_unary A G D C E (PA (S d)) s)
+    with (nested A G D E 141 (unary_body A G D C E OPS (PA d)) s).
+  unfold nested. cbv zeta.
+  change (depth (upd_depth A G D E s (S (depth s)))) with (S (depth s)).
+  destruct (S MAX_NESTING <=? S (depth s)) eqn:Hg; [apply Nat.leb_le in Hg; lia |].
+  assert (Hat' : at_stream (upd_depth A G D E s (S (depth s)))
+                           (SE a0 a1 (TLiteral LIdent name) g :: r)) by exact Hat.
+  destruct (unary_ident (PA d) _ a0 a1 name g r Htail Hat') as (s1 & Hu & Hat1 & Hd1).
+  rewrite Hu. eexists; split; [reflexivity |].
+  change (depth (upd_depth A G D E s (S (depth s)))) with (S (depth s)) in Hd1.
+  split; [exact Hat1 |]. cbn [s_depth upd_depth]. rewrite Hd1. reflexivity.
+Qed.
+
 Section Loop.
 Variable d : nat.
 Hypothesis IHd : forall prec s a0 a1 name g r,
   op_ident_tail r -> at_stream s (SE a0 a1 (TLiteral LIdent name) g :: r) ->
-  length r + 2 <= d ->
+  length r + 2 <= d -> depth s < MAX_NESTING ->
   exists (t : bexpT) s' consumed r',
     k_binary A G D C E (PA d) None prec s = Ok (to_node t) s' /\
     r = consumed ++ r' /\ op_ident_tail r' /\ at_stream s' r' /\
     flat t = IOperand (n_ident A C a0 name) :: items_of consumed /\
-    PrecWF t /\ tighter_than prec t /\ stops prec s'.
+    PrecWF t /\ tighter_than prec t /\ stops prec s' /\ depth s' = depth s.
 
 Lemma loop_complete : forall fuel prec (tx : bexpT) s r,
   op_ident_tail r -> at_stream s r -> length r + 1 <= fuel -> length r <= d ->
+  depth s < MAX_NESTING ->
   PrecWF tx -> tighter_than prec tx ->
   (forall pos op, cur s = Some (pos, TOperator op) -> at_least (level op) tx) ->
   exists (t : bexpT) s' consumed r',
     binary_loop A G D C E OPS (PA d) fuel prec (to_node tx) s = Ok (to_node t) s' /\
     r = consumed ++ r' /\ op_ident_tail r' /\ at_stream s' r' /\
     flat t = flat tx ++ items_of consumed /\
-    PrecWF t /\ tighter_than prec t /\ stops prec s'.
+    PrecWF t /\ tighter_than prec t /\ stops prec s' /\ depth s' = depth s.
 Proof.
-  induction fuel as [| f IH]; intros prec tx s r Htail Hat Hfuel Hd Hwf Htt Hroot.
+  induction fuel as [| f IH]; intros prec tx s r Htail Hat Hfuel Hd Hdep Hwf Htt Hroot.
   - lia.
   - assert (Hdone : (forall pos op, cur s = Some (pos, TOperator op) -> level op <= prec) ->
              exists (t : bexpT) s' consumed r',
                Ok (to_node tx) s = Ok (to_node t) s' /\
                r = consumed ++ r' /\ op_ident_tail r' /\ at_stream s' r' /\
                flat t = flat tx ++ items_of consumed /\
-               PrecWF t /\ tighter_than prec t /\ stops prec s').
+               PrecWF t /\ tighter_than prec t /\ stops prec s' /\ depth s' = depth s).
     { intro Hst. exists tx, s, [], r. simpl. rewrite app_nil_r.
       split; [reflexivity |]. split; [reflexivity |]. split; [exact Htail |].
       split; [exact Hat |]. split; [reflexivity |]. split; [exact Hwf |].
-      split; [exact Htt | exact Hst]. }
+      split; [exact Htt |]. split; [exact Hst | reflexivity]. }
     cbn [binary_loop].
     destruct Htail as [| a0 a1 op g b0 b1 name h r2 Hop Htl].
     + destruct Hat as (Hc & Hr & Ht). simpl in Hc. rewrite Hc.
@@ -600,16 +644,16 @@ Proof.
       rewrite prec_nat_level.
       destruct (prec <? level op) eqn:Hlt.
       * apply Nat.ltb_lt in Hlt.
-        destruct (next_at_stream s _ Hr Ht) as (s1 & Hn & Hat1).
+        destruct (next_at_stream s _ Hr Ht) as (s1 & Hn & Hat1 & Hd1).
         rewrite Hn. unfold bind at 1.
         simpl in Hd, Hfuel.
-        destruct (IHd (level op) s1 b0 b1 name h r2 Htl Hat1 ltac:(lia))
-          as (ty & s2 & cons2 & r2' & Hk & Hsplit & Htl2 & Hat2 & Hfy & Hwy & Hty & Hsy).
+        destruct (IHd (level op) s1 b0 b1 name h r2 Htl Hat1 ltac:(lia) ltac:(lia))
+          as (ty & s2 & cons2 & r2' & Hk & Hsplit & Htl2 & Hat2 & Hfy & Hwy & Hty & Hsy & Hd2).
         rewrite Hk. unfold bind at 1.
         assert (Hlen : length r2' <= length r2).
         { rewrite Hsplit, app_length. lia. }
-        destruct (IH prec (Bin a0 op tx ty) s2 r2' Htl2 Hat2 ltac:(lia) ltac:(lia))
-          as (t & s' & cons3 & r3 & H1 & H2 & H3 & H4 & H5 & H6 & H7 & H8).
+        destruct (IH prec (Bin a0 op tx ty) s2 r2' Htl2 Hat2 ltac:(lia) ltac:(lia) ltac:(lia))
+          as (t & s' & cons3 & r3 & H1 & H2 & H3 & H4 & H5 & H6 & H7 & H8 & H9).
         -- simpl. repeat split; try assumption. apply (Hroot a0 op); exact Hc.
         -- simpl. exact Hlt.
         -- intros pos2 op2 Hc2. simpl. apply (Hsy pos2 op2 Hc2).
@@ -618,7 +662,7 @@ Proof.
            split; [exact H1 |]. split.
            { rewrite Hsplit, H2. simpl. rewrite <- app_assoc. reflexivity. }
            split; [exact H3 |]. split; [exact H4 |].
-           split; [| split; [exact H6 | split; [exact H7 | exact H8]]].
+           split; [| split; [exact H6 | split; [exact H7 | split; [exact H8 | lia]]]].
            rewrite H5. simpl. rewrite Hfy. unfold items_of at 3. simpl.
            rewrite <- app_assoc. simpl.
            change (flat_map item_of (cons2 ++ cons3)) with (items_of (C := C) (cons2 ++ cons3)).
@@ -631,32 +675,32 @@ End Loop.
 
 Lemma climb_complete : forall d prec s a0 a1 name g r,
   op_ident_tail r -> at_stream s (SE a0 a1 (TLiteral LIdent name) g :: r) ->
-  length r + 2 <= d ->
+  length r + 2 <= d -> depth s < MAX_NESTING ->
   exists (t : bexpT) s' consumed r',
     k_binary A G D C E (PA d) None prec s = Ok (to_node t) s' /\
     r = consumed ++ r' /\ op_ident_tail r' /\ at_stream s' r' /\
     flat t = IOperand (n_ident A C a0 name) :: items_of consumed /\
-    PrecWF t /\ tighter_than prec t /\ stops prec s'.
+    PrecWF t /\ tighter_than prec t /\ stops prec s' /\ depth s' = depth s.
 Proof.
-  induction d as [| d IH]; intros prec s a0 a1 name g r Htail Hat Hd; [lia |].
+  induction d as [| d IH]; intros prec s a0 a1 name g r Htail Hat Hd Hdep; [lia |].
   destruct d as [| d']; [lia |].
   change (k_binary A G D C E (PA (S (S d'))) None prec s)
     with (binary_body A G D C E OPS (PA (S d')) None prec s).
   unfold binary_body.
-  change (k_unary A G D C E (PA (S d')) s) with (unary_body A G D C E OPS (PA d') s).
-  destruct (unary_ident (PA d') s a0 a1 name g r Htail Hat) as (s1 & Hu & Hat1).
+  destruct (k_unary_ident d' s a0 a1 name g r Htail Hat Hdep) as (s1 & Hu & Hat1 & Hd1).
   rewrite Hu. unfold bind.
   destruct (loop_complete (S d') IH (loop_fuel A G D E s1) prec (Atom (n_ident A C a0 name)) s1 r
-              Htail Hat1) as (t & s' & cons & r' & H1 & H2 & H3 & H4 & H5 & H6 & H7 & H8).
+              Htail Hat1) as (t & s' & cons & r' & H1 & H2 & H3 & H4 & H5 & H6 & H7 & H8 & H9).
   - unfold loop_fuel. destruct Hat1 as (_ & Hr1 & _). rewrite Hr1.
     destruct r; simpl; lia.
+  - lia.
   - lia.
   - exact I.
   - exact I.
   - intros; exact I.
   - exists t, s', cons, r'.
     split; [exact H1 |]. split; [exact H2 |]. split; [exact H3 |]. split; [exact H4 |].
-    split; [exact H5 |]. split; [exact H6 |]. split; [exact H7 | exact H8].
+    split; [exact H5 |]. split; [exact H6 |]. split; [exact H7 |]. split; [exact H8 | lia].
 Qed.
 
 (* the whole stream, through the public entry point Parser::expression *)
@@ -670,15 +714,17 @@ Proof.
   intros d a d0 elems ae ge (a0 & a1 & name & g & r & Hel & Htail) Hd.
   unfold entry_expression, ensure_started.
   destruct (next_at_stream (init_state A G D E a d0 elems (TEof ae ge)) elems eq_refl)
-    as (s0 & Hn & Hat0).
+    as (s0 & Hn & Hat0 & Hd0).
   { exists ae, ge; reflexivity. }
   change (s_started A G D E (init_state A G D E a d0 elems (TEof ae ge))) with false.
   cbv iota. rewrite Hn. unfold bind.
   destruct d as [| d1]; [lia |].
   change (k_expr A G D C E (PA (S d1)) s0) with (k_binary A G D C E (PA d1) None 0 s0).
   subst elems. simpl in Hd.
-  destruct (climb_complete d1 0 s0 a0 a1 name g r Htail Hat0 ltac:(lia))
-    as (t & s' & cons & r' & H1 & H2 & H3 & H4 & H5 & H6 & H7 & H8).
+  assert (Hdep0 : depth s0 < MAX_NESTING).
+  { rewrite Hd0. unfold MAX_NESTING. cbn [init_state s_depth]. lia. }
+  destruct (climb_complete d1 0 s0 a0 a1 name g r Htail Hat0 ltac:(lia) Hdep0)
+    as (t & s' & cons & r' & H1 & H2 & H3 & H4 & H5 & H6 & H7 & H8 & H9).
   assert (Hr' : r' = []).
   { destruct H3 as [| b0 b1 op h c0 c1 nm h2 r2 Hop Htl]; [reflexivity |].
     destruct H4 as (Hc & _). simpl in Hc. specialize (H8 _ _ Hc).
@@ -695,7 +741,7 @@ End Closed.
    positions = token indices, no comments *)
 
 Definition demo_ops : ops nat unit unit unit :=
-  {| d_next := fun _ _ _ => tt; d_goback := fun _ => tt; d_drain := fun _ => (tt, tt);
+  {| d_next := fun _ _ _ _ => tt; d_goback := fun _ => tt; d_drain := fun _ => (tt, tt);
      d_line_end := fun _ _ _ _ _ => (tt, tt, tt); c_empty := tt; a_plus2 := fun p => p + 2 |}.
 
 (* token i stands at position i *)
